@@ -40,7 +40,21 @@ def main():
                 rp = core.ROOT / rp
             rec = json.loads(rp.read_text())
             ctx = core.Ctx(pid, rec.get("tier", args.tier), int(rec.get("seed", seed)))
-        mod.run(ctx)
+        try:
+            mod.run(ctx)
+        except Exception as e:  # noqa: BLE001
+            # The harness itself could not complete against this tree.  Where the frames show the library raising, that is an
+            # observation about the library (a constructor or helper the harness relies on now fails on input it used to accept):
+            # the property is no longer shown to hold, so it is reported as such with the traceback as the replay.  A harness bug
+            # (no library frame in the traceback) stays a crash: exit 2.
+            tb = traceback.format_exc()
+            repo = str(core.REPO)
+            in_library = any(repo in line and "/sparse/" in line for line in tb.splitlines())
+            traceback.print_exc()
+            if not in_library:
+                return 2
+            ctx.fail("A", "harness-could-not-complete", {"exception": type(e).__name__, "message": str(e)[:300]},
+                     "the check could not be completed against this tree; the library raised inside a step the harness relies on:\n" + tb[-1800:])
         return core.finish(ctx)
     except Exception:
         traceback.print_exc()
